@@ -1296,7 +1296,7 @@ SHAPE_CORPUS = [
     _inj_case([_a("__ja__", "db")]),
     _inj_case([_a("__ja__", "db", "base")]),
     _inj_case([_a("__ja__", "db", "init")]),
-    # open finding D33: the same fixture injected through two attributes of a suite: only the last one (dir() order) is set
+    # open finding D35: the same fixture injected through two attributes of a suite: only the last one (dir() order) is set
     _inj_case([_a("ja", "db"), _a("_jb", "db")]),
     _inj_case([_a("db", None), _a("jz", "db", "init")]),
 ]
